@@ -25,6 +25,54 @@ Definition benign (o : out) : Prop :=
 Definition nomem (o : out) : Prop :=
   match o with TAdd _ => False | TDrop _ => False | _ => True end.
 
+(* strictly sorted member lists *)
+Fixpoint srt (l : list N) : Prop :=
+  match l with [] => True | x :: r => (forall y, In y r -> x < y) /\ srt r end.
+
+(* a leader holds a match_idx and a last_resp slot for every member *)
+Definition slots_ok (n : node) : Prop :=
+  srt (others n) /\
+  (role n = LEADER -> forall x, In x (others n) -> aget x (match_idx n) <> None /\ aget x (last_resp n) <> None).
+
+Lemma In_sadd : forall x y l, In y (sadd x l) -> y = x \/ In y l.
+Proof.
+  intros x y l; induction l as [|z l IH]; cbn; [intros [H|[]]; auto|].
+  destruct (x <? z); [cbn; intros [H|H]; auto|]. destruct (x =? z); [auto|].
+  cbn. intros [H|H]; auto. destruct (IH H); auto.
+Qed.
+
+Lemma srt_sadd : forall x l, srt l -> srt (sadd x l).
+Proof.
+  intros x l; induction l as [|z l IH]; cbn; [intros _; split; [intros y []|exact I]|].
+  intros (H1 & H2). destruct (x <? z) eqn:E1.
+  - apply N.ltb_lt in E1. cbn. split; [|split; assumption].
+    intros y [<-|Hy]; [exact E1|]. specialize (H1 y Hy). lia.
+  - destruct (x =? z) eqn:E2; [cbn; split; assumption|].
+    apply N.ltb_ge in E1. apply N.eqb_neq in E2. cbn. split; [|apply IH; exact H2].
+    intros y Hy. destruct (In_sadd _ _ _ Hy) as [->|Hy']; [lia | auto].
+Qed.
+
+Lemma In_sdel : forall x y l, In y (sdel x l) -> In y l.
+Proof.
+  intros x y l; induction l as [|z l IH]; cbn; [auto|].
+  destruct (x =? z); [auto|]. cbn. intros [H|H]; auto.
+Qed.
+
+Lemma srt_sdel : forall x l, srt l -> srt (sdel x l).
+Proof.
+  intros x l; induction l as [|z l IH]; cbn; [auto|]. intros (H1 & H2).
+  destruct (x =? z); [exact H2|]. cbn. split; [|apply IH; exact H2].
+  intros y Hy. apply H1. eapply In_sdel; exact Hy.
+Qed.
+
+Lemma In_sdel_neq : forall x y l, srt l -> In y (sdel x l) -> y <> x.
+Proof.
+  intros x y l; induction l as [|z l IH]; cbn; [intros _ []|]. intros (H1 & H2).
+  destruct (x =? z) eqn:E.
+  - apply N.eqb_eq in E; subst z. intros Hy ->. specialize (H1 x Hy). lia.
+  - apply N.eqb_neq in E. cbn. intros [<-|Hy]; [auto | apply IH; assumption].
+Qed.
+
 (* s' is reached from s by a phase that leaves the election core alone, only appends benign
    outputs, moves the clock forward, and touches others/last_resp/match_idx only together with a
    TAdd/TDrop output (m = true; m = false is for the dump-load path, which replaces `others`) *)
@@ -35,14 +83,20 @@ Definition fr (m : bool) (s s' : S) : Prop :=
     (tnow s <= tnow s')%Z /\
     (forall x v, aget x (last_resp (nd s')) = Some v ->
                  aget x (last_resp (nd s)) = Some v \/ (In (TAdd x) ex /\ (tnow s <= v <= tnow s')%Z)) /\
-    (need_load (nd s) = false -> need_load (nd s') = false).
+    (need_load (nd s) = false -> need_load (nd s') = false) /\
+    (m = true -> slots_ok (nd s) -> slots_ok (nd s')).
+
+Lemma slots_ok_eq : forall a b,
+  role a = role b -> others a = others b -> match_idx a = match_idx b -> last_resp a = last_resp b ->
+  slots_ok b -> slots_ok a.
+Proof. intros a b H1 H2 H3 H4 H. unfold slots_ok. rewrite H1, H2, H3, H4. exact H. Qed.
 
 Lemma fr_same : forall m s s',
   outs s' = outs s -> nd s' = nd s -> (tnow s <= tnow s')%Z -> fr m s s'.
 Proof.
   intros m s s' Ho Hn Ht. exists []. rewrite app_nil_r, Hn.
   split; [exact Ho|]. split; [constructor|]. split; [reflexivity|]. split; [reflexivity|].
-  split; [exact Ht|]. split; [intros x v H; left; exact H | auto].
+  split; [exact Ht|]. split; [intros x v H; left; exact H|]. split; auto.
 Qed.
 
 Lemma fr_refl : forall m s, fr m s s.
@@ -52,24 +106,24 @@ Qed.
 
 Lemma fr_trans : forall m s1 s2 s3, fr m s1 s2 -> fr m s2 s3 -> fr m s1 s3.
 Proof.
-  intros m s1 s2 s3 (e1 & O1 & B1 & C1 & M1 & T1 & L1 & N1) (e2 & O2 & B2 & C2 & M2 & T2 & L2 & N2).
-  exists (e1 ++ e2). repeat split.
-  - rewrite O2, O1, app_assoc; reflexivity.
-  - apply Forall_app; auto.
-  - congruence.
-  - intros Hm HF. apply Forall_app in HF as [F1 F2]. rewrite M2, M1; auto.
-  - lia.
-  - intros x v H. destruct (L2 x v H) as [H2 | [H2 H3]].
-    + destruct (L1 x v H2) as [H1 | [H1 H4]]; [left; auto | right; split; [apply in_or_app; auto | lia]].
-    + right; split; [apply in_or_app; auto | lia].
-  - auto.
+  intros m s1 s2 s3 (e1 & O1 & B1 & C1 & M1 & T1 & L1 & N1 & Q1) (e2 & O2 & B2 & C2 & M2 & T2 & L2 & N2 & Q2).
+  exists (e1 ++ e2).
+  split; [rewrite O2, O1, app_assoc; reflexivity|].
+  split; [apply Forall_app; auto|].
+  split; [congruence|].
+  split; [intros Hm HF; apply Forall_app in HF as [F1 F2]; rewrite M2, M1; auto|].
+  split; [lia|].
+  split; [|split; auto].
+  intros x v H. destruct (L2 x v H) as [H2 | [H2 H3]].
+  - destruct (L1 x v H2) as [H1 | [H1 H4]]; [left; auto | right; split; [apply in_or_app; auto | lia]].
+  - right; split; [apply in_or_app; auto | lia].
 Qed.
 
 Lemma fr_weaken : forall s s', fr true s s' -> fr false s s'.
 Proof.
-  intros s s' (ex & O & B & C & M & T & L & Nl). exists ex.
+  intros s s' (ex & O & B & C & M & T & L & Nl & Q). exists ex.
   split; [exact O|]. split; [exact B|]. split; [exact C|]. split; [discriminate|]. split; [exact T|].
-  split; [exact L | exact Nl].
+  split; [exact L|]. split; [exact Nl | discriminate].
 Qed.
 
 Lemma fr_any : forall m s s', fr true s s' -> fr m s s'.
@@ -88,7 +142,7 @@ Lemma fr_outs : forall m s s', fr m s s' -> exists ex, outs s' = outs s ++ ex /\
 Proof. intros m s s' (ex & O & B & _); eauto. Qed.
 
 Lemma fr_tnow : forall m s s', fr m s s' -> (tnow s <= tnow s')%Z.
-Proof. intros m s s' (ex & O & B & C & M & T & L & Nl); exact T. Qed.
+Proof. intros m s s' (ex & O & B & C & M & T & L & Nl & Q); exact T. Qed.
 
 (* ---- primitives ---- *)
 Lemma fr_upd : forall m (f : node -> node) s,
@@ -97,17 +151,18 @@ Lemma fr_upd : forall m (f : node -> node) s,
 Proof.
   intros m f s Hc Hm Hn. exists []. unfold upd; cbn. rewrite app_nil_r.
   split; [reflexivity|]. split; [constructor|]. split; [apply Hc|]. split; [intros; apply Hm|].
-  split; [lia|]. split; [|rewrite Hn; auto].
-  intros x v H. left. specialize (Hm (nd s)). unfold mem_part in Hm.
-  assert (last_resp (f (nd s)) = last_resp (nd s)) as H2 by congruence.
-  rewrite <- H2; exact H.
+  split; [lia|].
+  specialize (Hm (nd s)). unfold mem_part in Hm. injection Hm as M1 M2 M3 M4.
+  split; [intros x v H; left; rewrite <- M2; exact H|]. split; [rewrite Hn; auto|].
+  intros _. apply slots_ok_eq; auto.
+  specialize (Hc (nd s)). unfold core in Hc. injection Hc; auto.
 Qed.
 
 Lemma fr_emit : forall m o s, benign o -> nomem o -> fr m s (emit o s).
 Proof.
   intros m o s Hb Hn. exists [o]. unfold emit; cbn.
   split; [reflexivity|]. split; [repeat constructor; exact Hb|]. split; [reflexivity|]. split; [reflexivity|].
-  split; [lia|]. split; [intros x v H; left; exact H | auto].
+  split; [lia|]. split; [intros x v H; left; exact H|]. split; auto.
 Qed.
 
 Lemma fr_raise : forall m c s, fr m s (raise c s).
@@ -176,6 +231,13 @@ Proof.
 Qed.
 
 (* ---- membership ---- *)
+Lemma aget_aset_some : forall {V} k k' (v : V) l, aget k' l <> None -> aget k' (aset k v l) <> None.
+Proof.
+  intros V k k' v l H. destruct (N.eq_dec k' k) as [->|Hne].
+  - rewrite aget_aset_same; discriminate.
+  - rewrite aget_aset_other; auto.
+Qed.
+
 Lemma fr_do_change_cluster : forall m add x rev s, fr m s (fst (do_change_cluster add x rev s)).
 Proof.
   intros m add x rev s. unfold do_change_cluster.
@@ -186,18 +248,31 @@ Proof.
     split; [destruct (role (nd s) =? LEADER); reflexivity|].
     split; [intros _ HF; inversion HF; subst; contradiction|].
     split; [lia|].
-    split; [|destruct (role (nd s) =? LEADER); cbn; auto].
-    intros y v H. destruct (role (nd s) =? LEADER); cbn in H; [|left; exact H].
-    destruct (N.eq_dec y x) as [->|Hne].
-    + right. rewrite aget_aset_same in H. inversion H. split; [left; reflexivity | lia].
-    + left. rewrite aget_aset_other in H; auto.
+    split; [|split; [destruct (role (nd s) =? LEADER); cbn; auto|]].
+    + intros y v H. destruct (role (nd s) =? LEADER); cbn in H; [|left; exact H].
+      destruct (N.eq_dec y x) as [->|Hne].
+      * right. rewrite aget_aset_same in H. inversion H. split; [left; reflexivity | lia].
+      * left. rewrite aget_aset_other in H; auto.
+    + intros _ (S1 & S2). destruct (role (nd s) =? LEADER) eqn:ER; cbn.
+      * split; [apply srt_sadd; exact S1|]. intros Hl y Hy.
+        destruct (In_sadd _ _ _ Hy) as [->|Hy'].
+        -- change (aget x (aset x 0 (match_idx (nd s))) <> None /\ aget x (aset x (tnow s) (last_resp (nd s))) <> None).
+           rewrite !aget_aset_same. split; discriminate.
+        -- destruct (S2 Hl y Hy') as (A1 & A2).
+           change (aget y (aset x 0 (match_idx (nd s))) <> None /\ aget y (aset x (tnow s) (last_resp (nd s))) <> None).
+           split; apply aget_aset_some; assumption.
+      * split; [apply srt_sadd; exact S1|]. intros Hl. apply N.eqb_neq in ER. contradiction.
   - destruct (self_is x (nd s)); cbn; [apply fr_refl|].
     destruct (negb (smem x (others (nd s)))); cbn; [apply fr_refl|].
     exists [TDrop x]. unfold emit; cbn.
     split; [reflexivity|]. split; [repeat constructor|].
     split; [reflexivity|].
     split; [intros _ HF; inversion HF; subst; contradiction|].
-    split; [lia|]. split; [intros y v H; left; exact H | cbn; auto].
+    split; [lia|]. split; [intros y v H; left; exact H|]. split; [cbn; auto|].
+    intros _ (S1 & S2). split; [apply srt_sdel; exact S1|]. intros Hl y Hy.
+    destruct (S2 Hl y (In_sdel _ _ _ Hy)) as (A1 & A2).
+    split; [|exact A2]. change (aget y (adel x (match_idx (nd s))) <> None).
+    rewrite aget_adel_other; [exact A1 | eapply In_sdel_neq; eauto].
 Qed.
 
 (* ---- chaining tactic ---- *)
@@ -207,14 +282,14 @@ Lemma fr_upd_false : forall (f : node -> node) s,
 Proof.
   intros f s Hc Hm Hn. exists []. unfold upd; cbn. rewrite app_nil_r.
   split; [reflexivity|]. split; [constructor|]. split; [apply Hc|]. split; [discriminate|].
-  split; [lia|]. split; [|rewrite Hn; auto]. intros x v H; left. rewrite <- Hm; exact H.
+  split; [lia|]. split; [intros x v H; left; rewrite <- Hm; exact H|]. split; [rewrite Hn; auto | discriminate].
 Qed.
 
 Lemma fr_emit_false : forall o s, benign o -> fr false s (emit o s).
 Proof.
   intros o s Hb. exists [o]. unfold emit; cbn.
   split; [reflexivity|]. split; [repeat constructor; exact Hb|]. split; [reflexivity|].
-  split; [discriminate|]. split; [lia|]. split; [intros x v H; left; exact H | auto].
+  split; [discriminate|]. split; [lia|]. split; [intros x v H; left; exact H|]. split; [auto | discriminate].
 Qed.
 
 Create HintDb frdb.
@@ -293,7 +368,7 @@ Proof.
   intros m e s Hp. unfold delta_read, period_ok in *. cbv zeta.
   destruct (_ && _); exists []; cbn; rewrite app_nil_r;
     (split; [reflexivity|]; split; [constructor|]; split; [reflexivity|]; split; [reflexivity|];
-     split; [lia|]; split; [intros x v H; left; exact H | auto]).
+     split; [lia|]; split; [intros x v H; left; exact H|]; split; auto).
 Qed.
 
 Lemma fr_send_pieces : forall m fuel x en prev b pos s, fr m s (send_pieces fuel x en prev b pos s).
